@@ -570,7 +570,20 @@ class Schema(ResolverMap):
             },
         )
 
-        cloned.merge_resolvers(self)
+        # Resolvers are already attached to the cloned fields, this carries over
+        # the registry. Entries for types or fields which have been removed
+        # since they were registered (e.g. by a previous transform) are dropped.
+        for registry, register in (
+            (self.resolvers, cloned.register_resolver),
+            (self.subscriptions, cloned.register_subscription),
+        ):
+            for typename, resolvers in registry.items():
+                cloned_type = cloned.types.get(typename)
+                if not isinstance(cloned_type, ObjectType):
+                    continue
+                for fieldname, resolver in resolvers.items():
+                    if fieldname == "*" or fieldname in cloned_type.field_map:
+                        register(typename, fieldname, resolver)
 
         return cloned
 
